@@ -11,5 +11,7 @@ CONSTANTS
   OtherForAll = FALSE
   EmptyMeansAll = FALSE
   StatusSucceeds = FALSE
+  AliasCallerSet = FALSE
+  MemoDecision = FALSE
   StarWithCreds = FALSE
 INVARIANT Emit
